@@ -449,6 +449,10 @@ pub struct NetCfg {
     /// (`lib_build::build` otherwise sets them to arbitrary values).
     pub keep_default_accumulations: bool,
     pub loopacc: Acc,
+    /// The gradient scaling closure handed to `loopback` (it concerns the backward pass only):
+    /// 0: 1/x (as in the crate's documentation), 1: constant 1 (as in its examples), 2: 1/sqrt(x),
+    /// 3: x. Only forward-only monitors choose anything but 0.
+    pub loopscale: usize,
 }
 
 impl NetCfg {
@@ -461,6 +465,7 @@ impl NetCfg {
             loops: Vec::new(),
             keep_default_accumulations: false,
             loopacc: Acc::Mean,
+            loopscale: 0,
         }
     }
     /// Per layer: (shape of the input as the layer holds it, output shape, output is flattened).
@@ -494,6 +499,9 @@ impl NetCfg {
         }
         if !self.loops.is_empty() {
             s.push_str(&format!(" | loops {:?} {}", self.loops, self.loopacc.name()));
+            if self.loopscale != 0 {
+                s.push_str(["", " scale=1", " scale=1/sqrt(x)", " scale=x"][self.loopscale.min(3)]);
+            }
         }
         s
     }
